@@ -344,6 +344,10 @@ def lock_scopes(g, unwind=False):
             p = strip(n['place'])
             if p in guards:
                 out = frozenset(x for x in held if strip(x[0]) != p)
+        elif n['kind'] in ('call', 'enter') and n['name'] == 'std::mem::drop' and n['args']:
+            p = strip(n['args'][0])
+            if p in guards:
+                out = frozenset(x for x in held if strip(x[0]) != p)
         for (m, k, lab) in n['succ']:
             if k == 'u' and not unwind:
                 continue
